@@ -66,6 +66,7 @@ type fakeS3 struct {
 	asked         []string
 	failIn        int // fail the next n calls
 	failTransient int // fail the next n PUTs with a 500 after reading the body
+	gets          int // GETs served (selects how the body is handed out)
 }
 
 func (f *fakeS3) HeadObjectWithContext(ctx aws.Context, in *s3.HeadObjectInput, _ ...request.Option) (*s3.HeadObjectOutput, error) {
@@ -99,7 +100,47 @@ func (f *fakeS3) GetObjectWithContext(ctx aws.Context, in *s3.GetObjectInput, _ 
 	if !ok {
 		return nil, errors.New("NoSuchKey")
 	}
-	return &s3.GetObjectOutput{Body: io.NopCloser(bytes.NewReader(append([]byte{}, b...)))}, nil
+	// like the service, the fake states the length and hands the body out the way a network connection does: in pieces
+	// (mode 1: at most 512 bytes a Read; mode 2: one byte a Read; mode 3: the last piece together with io.EOF), mode 0: at once
+	f.gets++
+	var body io.Reader = bytes.NewReader(append([]byte{}, b...))
+	switch f.gets % 4 {
+	case 1:
+		body = &pieceReader{r: body, max: 512}
+	case 2:
+		body = &pieceReader{r: body, max: 1}
+	case 3:
+		body = &pieceReader{r: body, max: 3145, eofWithData: true}
+	}
+	return &s3.GetObjectOutput{Body: io.NopCloser(body), ContentLength: aws.Int64(int64(len(b)))}, nil
+}
+
+// pieceReader returns at most max bytes per Read; with eofWithData the final bytes come together with io.EOF (both are
+// behaviours the io.Reader contract allows and network bodies show)
+type pieceReader struct {
+	r           io.Reader
+	max         int
+	eofWithData bool
+	pending     []byte
+}
+
+func (p *pieceReader) Read(b []byte) (int, error) {
+	if len(b) > p.max {
+		b = b[:p.max]
+	}
+	if !p.eofWithData {
+		return p.r.Read(b)
+	}
+	// look one piece ahead so that the last piece can be returned with io.EOF
+	if p.pending == nil {
+		p.pending, _ = io.ReadAll(p.r)
+	}
+	n := copy(b, p.pending)
+	p.pending = p.pending[n:]
+	if len(p.pending) == 0 {
+		return n, io.EOF
+	}
+	return n, nil
 }
 func (f *fakeS3) PutObjectWithContext(ctx aws.Context, in *s3.PutObjectInput, _ ...request.Option) (*s3.PutObjectOutput, error) {
 	b, err := io.ReadAll(in.Body)
